@@ -66,3 +66,152 @@ cfg_if::cfg_if! {
 #[no_mangle] #[inline(never)] pub fn vp_us_as_montgomery(a: &US) -> US { a.as_montgomery() }
 #[no_mangle] #[inline(never)] pub fn vp_us_from_montgomery(a: &US) -> US { a.from_montgomery() }
 
+
+// ------------------------------------------------------------------ point formulas (layer F)
+use crate::backend::serial::curve_models::{AffineNielsPoint, CompletedPoint, ProjectiveNielsPoint, ProjectivePoint};
+use crate::edwards::{CompressedEdwardsY, EdwardsPoint};
+use crate::montgomery::MontgomeryPoint;
+use crate::ristretto::{CompressedRistretto, RistrettoPoint};
+use crate::traits::{Identity, IsIdentity};
+
+#[no_mangle] #[inline(never)] pub fn vp_ed_add(a: &EdwardsPoint, b: &EdwardsPoint) -> EdwardsPoint { a + b }
+#[no_mangle] #[inline(never)] pub fn vp_ed_sub(a: &EdwardsPoint, b: &EdwardsPoint) -> EdwardsPoint { a - b }
+#[no_mangle] #[inline(never)] pub fn vp_ed_neg(a: &EdwardsPoint) -> EdwardsPoint { -a }
+#[no_mangle] #[inline(never)] pub fn vp_ed_double(a: &EdwardsPoint) -> EdwardsPoint { a.double() }
+#[no_mangle] #[inline(never)] pub fn vp_ed_add_pn(a: &EdwardsPoint, b: &ProjectiveNielsPoint) -> CompletedPoint { a + b }
+#[no_mangle] #[inline(never)] pub fn vp_ed_sub_pn(a: &EdwardsPoint, b: &ProjectiveNielsPoint) -> CompletedPoint { a - b }
+#[no_mangle] #[inline(never)] pub fn vp_ed_add_an(a: &EdwardsPoint, b: &AffineNielsPoint) -> CompletedPoint { a + b }
+#[no_mangle] #[inline(never)] pub fn vp_ed_sub_an(a: &EdwardsPoint, b: &AffineNielsPoint) -> CompletedPoint { a - b }
+#[no_mangle] #[inline(never)] pub fn vp_ed_as_projective_niels(a: &EdwardsPoint) -> ProjectiveNielsPoint { a.as_projective_niels() }
+#[no_mangle] #[inline(never)] pub fn vp_ed_as_affine_niels(a: &EdwardsPoint) -> AffineNielsPoint { a.as_affine_niels() }
+#[no_mangle] #[inline(never)] pub fn vp_ed_as_projective(a: &EdwardsPoint) -> ProjectivePoint { a.as_projective() }
+#[no_mangle] #[inline(never)] pub fn vp_pn_neg(a: &ProjectiveNielsPoint) -> ProjectiveNielsPoint { -a }
+#[no_mangle] #[inline(never)] pub fn vp_an_neg(a: &AffineNielsPoint) -> AffineNielsPoint { -a }
+#[no_mangle] #[inline(never)] pub fn vp_cp_as_extended(a: &CompletedPoint) -> EdwardsPoint { a.as_extended() }
+#[no_mangle] #[inline(never)] pub fn vp_cp_as_projective(a: &CompletedPoint) -> ProjectivePoint { a.as_projective() }
+#[no_mangle] #[inline(never)] pub fn vp_pp_double(a: &ProjectivePoint) -> CompletedPoint { a.double() }
+#[no_mangle] #[inline(never)] pub fn vp_pp_as_extended(a: &ProjectivePoint) -> EdwardsPoint { a.as_extended() }
+#[no_mangle] #[inline(never)] pub fn vp_ed_identity() -> EdwardsPoint { EdwardsPoint::identity() }
+#[no_mangle] #[inline(never)] pub fn vp_ed_is_identity(a: &EdwardsPoint) -> bool { a.is_identity() }
+#[no_mangle] #[inline(never)] pub fn vp_ed_ct_eq(a: &EdwardsPoint, b: &EdwardsPoint) -> u8 { a.ct_eq(b).unwrap_u8() }
+#[no_mangle] #[inline(never)] pub fn vp_ed_select(a: &EdwardsPoint, b: &EdwardsPoint, c: u8) -> EdwardsPoint { EdwardsPoint::conditional_select(a, b, Choice::from(c)) }
+#[no_mangle] #[inline(never)] pub fn vp_ed_compress(a: &EdwardsPoint) -> [u8; 32] { a.compress().to_bytes() }
+#[no_mangle] #[inline(never)] pub fn vp_ed_decompress(b: &[u8; 32], out: &mut EdwardsPoint) -> bool {
+    match CompressedEdwardsY(*b).decompress() { Some(p) => { *out = p; true } None => false }
+}
+#[no_mangle] #[inline(never)] pub fn vp_ed_mul_by_cofactor(a: &EdwardsPoint) -> EdwardsPoint { a.mul_by_cofactor() }
+#[no_mangle] #[inline(never)] pub fn vp_ed_mul_by_pow_2(a: &EdwardsPoint, k: u32) -> EdwardsPoint { a.mul_by_pow_2(k) }
+#[no_mangle] #[inline(never)] pub fn vp_ed_is_small_order(a: &EdwardsPoint) -> bool { a.is_small_order() }
+#[no_mangle] #[inline(never)] pub fn vp_ed_to_montgomery(a: &EdwardsPoint) -> [u8; 32] { a.to_montgomery().to_bytes() }
+#[cfg(feature = "zeroize")]
+#[no_mangle] #[inline(never)] pub fn vp_ed_zeroize(a: &mut EdwardsPoint) { zeroize::Zeroize::zeroize(a) }
+
+// Montgomery
+#[no_mangle] #[inline(never)] pub fn vp_mont_to_edwards(u: &[u8; 32], sign: u8, out: &mut EdwardsPoint) -> bool {
+    match MontgomeryPoint(*u).to_edwards(sign) { Some(p) => { *out = p; true } None => false }
+}
+#[no_mangle] #[inline(never)] pub fn vp_mont_ct_eq(a: &[u8; 32], b: &[u8; 32]) -> u8 { MontgomeryPoint(*a).ct_eq(&MontgomeryPoint(*b)).unwrap_u8() }
+#[no_mangle] #[inline(never)] pub fn vp_mont_elligator_encode(r: &FieldElement) -> [u8; 32] { crate::montgomery::elligator_encode(r).to_bytes() }
+
+// Ristretto
+#[no_mangle] #[inline(never)] pub fn vp_ris_decompress(b: &[u8; 32], out: &mut EdwardsPoint) -> bool {
+    match CompressedRistretto(*b).decompress() { Some(p) => { *out = p.0; true } None => false }
+}
+#[no_mangle] #[inline(never)] pub fn vp_ris_compress(a: &EdwardsPoint) -> [u8; 32] { RistrettoPoint(*a).compress().to_bytes() }
+#[no_mangle] #[inline(never)] pub fn vp_ris_ct_eq(a: &EdwardsPoint, b: &EdwardsPoint) -> u8 { RistrettoPoint(*a).ct_eq(&RistrettoPoint(*b)).unwrap_u8() }
+#[no_mangle] #[inline(never)] pub fn vp_ris_elligator(r: &FieldElement) -> EdwardsPoint { RistrettoPoint::elligator_ristretto_flavor(r).0 }
+#[no_mangle] #[inline(never)] pub fn vp_ris_from_uniform_bytes(b: &[u8; 64]) -> EdwardsPoint { RistrettoPoint::from_uniform_bytes(b).0 }
+#[cfg(feature = "alloc")]
+#[no_mangle] #[inline(never)] pub fn vp_ris_double_and_compress_batch_1(a: &EdwardsPoint, out: &mut [u8; 32]) {
+    let v = RistrettoPoint::double_and_compress_batch(&[RistrettoPoint(*a)]); *out = v[0].to_bytes();
+}
+#[cfg(feature = "alloc")]
+#[no_mangle] #[inline(never)] pub fn vp_ris_double_and_compress_batch_2(a: &EdwardsPoint, b: &EdwardsPoint, out: &mut [[u8; 32]; 2]) {
+    let v = RistrettoPoint::double_and_compress_batch(&[RistrettoPoint(*a), RistrettoPoint(*b)]);
+    out[0] = v[0].to_bytes(); out[1] = v[1].to_bytes();
+}
+
+// ------------------------------------------------------------------ raw byte-buffer dispatcher (native replay)
+// Every `vp_*` wrapper can be called with its arguments given as raw little-endian object images; used by the
+// replay binary (/verif/native) to run counterexamples and translator-validation vectors on the real build.
+#[cfg(feature = "alloc")]
+pub mod raw {
+    use super::*;
+    use alloc::vec::Vec;
+    unsafe fn rd<T: Copy>(b: &[u8]) -> T { assert!(b.len() == core::mem::size_of::<T>(), "argument size"); core::ptr::read_unaligned(b.as_ptr() as *const T) }
+    fn wr<T: Copy>(v: &T, out: &mut Vec<u8>) {
+        let p = v as *const T as *const u8;
+        for i in 0..core::mem::size_of::<T>() { out.push(unsafe { *p.add(i) }); }
+    }
+    /// returns false if the name is unknown
+    pub fn vp_raw_call(name: &str, a: &[&[u8]], out: &mut Vec<u8>) -> bool {
+        type FE = FieldElement; type EP = EdwardsPoint; type PN = ProjectiveNielsPoint; type AN = AffineNielsPoint;
+        type PP = ProjectivePoint; type CP = CompletedPoint; type B32 = [u8; 32]; type B64 = [u8; 64];
+        unsafe {
+        match name {
+            "vp_fe_mul" => wr(&vp_fe_mul(&rd::<FE>(a[0]), &rd::<FE>(a[1])), out),
+            "vp_fe_add" => wr(&vp_fe_add(&rd::<FE>(a[0]), &rd::<FE>(a[1])), out),
+            "vp_fe_sub" => wr(&vp_fe_sub(&rd::<FE>(a[0]), &rd::<FE>(a[1])), out),
+            "vp_fe_neg" => wr(&vp_fe_neg(&rd::<FE>(a[0])), out),
+            "vp_fe_square" => wr(&vp_fe_square(&rd::<FE>(a[0])), out),
+            "vp_fe_square2" => wr(&vp_fe_square2(&rd::<FE>(a[0])), out),
+            "vp_fe_pow2k" => wr(&vp_fe_pow2k(&rd::<FE>(a[0]), rd::<u32>(a[1])), out),
+            "vp_fe_from_bytes" => wr(&vp_fe_from_bytes(&rd::<B32>(a[0])), out),
+            "vp_fe_as_bytes" => wr(&vp_fe_as_bytes(&rd::<FE>(a[0])), out),
+            "vp_fe_invert" => wr(&vp_fe_invert(&rd::<FE>(a[0])), out),
+            "vp_fe_sqrt_ratio_i" => { let mut r = rd::<FE>(a[0]); let c = vp_fe_sqrt_ratio_i(&rd::<FE>(a[0]), &rd::<FE>(a[1]), &mut r); out.push(c); wr(&r, out) }
+            "vp_fe_ct_eq" => out.push(vp_fe_ct_eq(&rd::<FE>(a[0]), &rd::<FE>(a[1]))),
+            "vp_fe_is_negative" => out.push(vp_fe_is_negative(&rd::<FE>(a[0]))),
+            "vp_fe_is_zero" => out.push(vp_fe_is_zero(&rd::<FE>(a[0]))),
+            "vp_us_from_bytes" => wr(&vp_us_from_bytes(&rd::<B32>(a[0])), out),
+            "vp_us_from_bytes_wide" => wr(&vp_us_from_bytes_wide(&rd::<B64>(a[0])), out),
+            "vp_us_as_bytes" => wr(&vp_us_as_bytes(&rd::<US>(a[0])), out),
+            "vp_us_add" => wr(&vp_us_add(&rd::<US>(a[0]), &rd::<US>(a[1])), out),
+            "vp_us_sub" => wr(&vp_us_sub(&rd::<US>(a[0]), &rd::<US>(a[1])), out),
+            "vp_us_mul" => wr(&vp_us_mul(&rd::<US>(a[0]), &rd::<US>(a[1])), out),
+            "vp_us_square" => wr(&vp_us_square(&rd::<US>(a[0])), out),
+            "vp_us_montgomery_mul" => wr(&vp_us_montgomery_mul(&rd::<US>(a[0]), &rd::<US>(a[1])), out),
+            "vp_us_montgomery_square" => wr(&vp_us_montgomery_square(&rd::<US>(a[0])), out),
+            "vp_us_as_montgomery" => wr(&vp_us_as_montgomery(&rd::<US>(a[0])), out),
+            "vp_us_from_montgomery" => wr(&vp_us_from_montgomery(&rd::<US>(a[0])), out),
+            "vp_ed_add" => wr(&vp_ed_add(&rd::<EP>(a[0]), &rd::<EP>(a[1])), out),
+            "vp_ed_sub" => wr(&vp_ed_sub(&rd::<EP>(a[0]), &rd::<EP>(a[1])), out),
+            "vp_ed_neg" => wr(&vp_ed_neg(&rd::<EP>(a[0])), out),
+            "vp_ed_double" => wr(&vp_ed_double(&rd::<EP>(a[0])), out),
+            "vp_ed_add_pn" => wr(&vp_ed_add_pn(&rd::<EP>(a[0]), &rd::<PN>(a[1])), out),
+            "vp_ed_sub_pn" => wr(&vp_ed_sub_pn(&rd::<EP>(a[0]), &rd::<PN>(a[1])), out),
+            "vp_ed_add_an" => wr(&vp_ed_add_an(&rd::<EP>(a[0]), &rd::<AN>(a[1])), out),
+            "vp_ed_sub_an" => wr(&vp_ed_sub_an(&rd::<EP>(a[0]), &rd::<AN>(a[1])), out),
+            "vp_ed_as_projective_niels" => wr(&vp_ed_as_projective_niels(&rd::<EP>(a[0])), out),
+            "vp_ed_as_affine_niels" => wr(&vp_ed_as_affine_niels(&rd::<EP>(a[0])), out),
+            "vp_ed_as_projective" => wr(&vp_ed_as_projective(&rd::<EP>(a[0])), out),
+            "vp_pn_neg" => wr(&vp_pn_neg(&rd::<PN>(a[0])), out),
+            "vp_an_neg" => wr(&vp_an_neg(&rd::<AN>(a[0])), out),
+            "vp_cp_as_extended" => wr(&vp_cp_as_extended(&rd::<CP>(a[0])), out),
+            "vp_cp_as_projective" => wr(&vp_cp_as_projective(&rd::<CP>(a[0])), out),
+            "vp_pp_double" => wr(&vp_pp_double(&rd::<PP>(a[0])), out),
+            "vp_pp_as_extended" => wr(&vp_pp_as_extended(&rd::<PP>(a[0])), out),
+            "vp_ed_identity" => wr(&vp_ed_identity(), out),
+            "vp_ed_is_identity" => out.push(vp_ed_is_identity(&rd::<EP>(a[0])) as u8),
+            "vp_ed_ct_eq" => out.push(vp_ed_ct_eq(&rd::<EP>(a[0]), &rd::<EP>(a[1]))),
+            "vp_ed_select" => wr(&vp_ed_select(&rd::<EP>(a[0]), &rd::<EP>(a[1]), rd::<u8>(a[2])), out),
+            "vp_ed_compress" => wr(&vp_ed_compress(&rd::<EP>(a[0])), out),
+            "vp_ed_decompress" => { let mut p = EdwardsPoint::identity(); let ok = vp_ed_decompress(&rd::<B32>(a[0]), &mut p); out.push(ok as u8); wr(&p, out) }
+            "vp_ed_mul_by_cofactor" => wr(&vp_ed_mul_by_cofactor(&rd::<EP>(a[0])), out),
+            "vp_ed_mul_by_pow_2" => wr(&vp_ed_mul_by_pow_2(&rd::<EP>(a[0]), rd::<u32>(a[1])), out),
+            "vp_ed_is_small_order" => out.push(vp_ed_is_small_order(&rd::<EP>(a[0])) as u8),
+            "vp_ed_to_montgomery" => wr(&vp_ed_to_montgomery(&rd::<EP>(a[0])), out),
+            "vp_mont_to_edwards" => { let mut p = EdwardsPoint::identity(); let ok = vp_mont_to_edwards(&rd::<B32>(a[0]), rd::<u8>(a[1]), &mut p); out.push(ok as u8); wr(&p, out) }
+            "vp_mont_ct_eq" => out.push(vp_mont_ct_eq(&rd::<B32>(a[0]), &rd::<B32>(a[1]))),
+            "vp_mont_elligator_encode" => wr(&vp_mont_elligator_encode(&rd::<FE>(a[0])), out),
+            "vp_ris_decompress" => { let mut p = EdwardsPoint::identity(); let ok = vp_ris_decompress(&rd::<B32>(a[0]), &mut p); out.push(ok as u8); wr(&p, out) }
+            "vp_ris_compress" => wr(&vp_ris_compress(&rd::<EP>(a[0])), out),
+            "vp_ris_ct_eq" => out.push(vp_ris_ct_eq(&rd::<EP>(a[0]), &rd::<EP>(a[1]))),
+            "vp_ris_elligator" => wr(&vp_ris_elligator(&rd::<FE>(a[0])), out),
+            "vp_ris_from_uniform_bytes" => wr(&vp_ris_from_uniform_bytes(&rd::<B64>(a[0])), out),
+            _ => return false,
+        }
+        }
+        true
+    }
+}
